@@ -74,6 +74,7 @@ type ecaseJ struct {
 	Pipeline bool    // the client writes all requests before it reads the first response
 	Handler  bool    // through the http.Handler variant of the proxy (oracle only, the model is of the connection handler)
 	AttachRT bool    // the proxy's RoundTripper is wrapped: replies carrying X-Attach-Body get a body attached (header-only replies with an unexpected body)
+	Shutdown int     // >0: the proxy (a rig of its own) is told to shut down this many ms after the first request was sent, while the origin still delays its reply
 }
 
 // ---------------------------------------------------------------- origin
@@ -776,6 +777,12 @@ func corpus() []ecaseJ {
 				Framing: "cl", Body: "ok", HeadCL: -1, KeepOpen: true}},
 			{xreq{Method: "HEAD", Proto: "HTTP/1.1"}, oresp{Proto: "HTTP/1.1", Code: 200, Reason: "OK", Fields: []hfield{{"Connection", "X-A-Hop,x-b-hop ,\tX-C-HOP"}, {"X-A-Hop", "a"}, {"X-B-Hop", "b"}, {"X-C-Hop", "c"}, {"X-Keep", "k"}},
 				Framing: "none", HeadCL: 2, KeepOpen: true}}}},
+		{Class: "response-written-while-shutting-down", Shutdown: 120, Exchs: []exchJ{
+			{get("HTTP/1.1"), oresp{Raw: []string{"", "HTTP/1.1 200 OK\r\nContent-Length: 2\r\nX-Keep: k\r\n\r\nok"}, GapMs: 400, Proto: "HTTP/1.1", Code: 200, Reason: "OK", Fields: []hfield{{"X-Keep", "k"}}, Framing: "cl", Body: "ok", HeadCL: -1}},
+			{get("HTTP/1.1"), plain}}},
+		{Class: "response-written-while-shutting-down", Shutdown: 120, Exchs: []exchJ{
+			{get("HTTP/1.1"), oresp{Raw: []string{"", "HTTP/1.1 200 OK\r\nTransfer-Encoding: chunked\r\n\r\n5\r\nhello\r\n0\r\n\r\n"}, GapMs: 400, Proto: "HTTP/1.1", Code: 200, Reason: "OK", Framing: "chunked", Body: "hello", Chunks: []int{5}, HeadCL: -1}},
+			{get("HTTP/1.1"), plain}}},
 		{Class: "chunked-with-trailers", Exchs: []exchJ{{get("HTTP/1.1"), chTr}, {get("HTTP/1.1"), plain}, {xreq{Method: "HEAD", Proto: "HTTP/1.1"}, plain}, {get("HTTP/1.1"), ch}}},
 	}...)
 }
@@ -929,7 +936,7 @@ func renderE2E(c ecaseJ, res connResult, snaps []snapshot, sawAE []string, relax
 			min = 0
 		}
 		q := fmt.Sprintf("(mkReq %s %d %d %s)", coqfmt.Str(x.Req.Method), maj, min, coqfmt.Bool(reqClose(x.Req)))
-		parts = append(parts, fmt.Sprintf("{| e_req := %s; e_snap := %s; e_order := %s; e_exp := %s |}", q, coqResp(rj),
+		parts = append(parts, fmt.Sprintf("{| e_closing := %s; e_req := %s; e_snap := %s; e_order := %s; e_exp := %s |}", coqfmt.Bool(c.Shutdown > 0), q, coqResp(rj),
 			coqfmt.StrList(order), expected(x, strings.Contains(sawAE[i], "gzip"), relax304)))
 	}
 	v11 := c.Exchs[0].Req.Proto == "HTTP/1.1"
@@ -982,6 +989,13 @@ func runCases(cases []ecaseJ, wait time.Duration) (rendered []string, outs []any
 			}
 			org.mu.Unlock()
 			rig := rigs[rigKey{c.Handler, c.AttachRT}]
+			if c.Shutdown > 0 {
+				rig = newProxyRig(c.Handler)
+				go func() {
+					time.Sleep(time.Duration(c.Shutdown) * time.Millisecond)
+					rig.stop() // graceful shutdown: p.closing() becomes true, the exchange in flight is finished
+				}()
+			}
 			res := runConn(rig.addr, origin, paths, c, wait)
 			snaps := make([]snapshot, len(paths))
 			sawAE := make([]string, len(paths))
